@@ -16,7 +16,7 @@ ASSUMPTIONS = [
     'node text is checked the way the property says to observe it: str(node) against the source slice at '
     'node.position, plus the multiset of (span start, text) of all generator constructs',
 ]
-EXTRA = ('neigh', 'char', 'args', 'samples', 'nest', 'sibs')
+EXTRA = ('neigh', 'char', 'args', 'samples', 'nest', 'sibs', 'long')
 
 
 def check_doc(acc, src, items):
@@ -120,7 +120,7 @@ SIGNATURES = {}
 def coverage(tier, total):
     return {
         'rule': 'every L_wf document of: %s, plus the neighbour layer (all ordered pairs of constructs x 4 separators x '
-                'every container), the character layer, the sibling layer (4-8 siblings), the nest layer (two container kinds alternating to depth 5..40, 306 documents) '
+                'every container), the character layer, the sibling layer (4-8 siblings), six long documents (300 commands, a 3000-character run, 70 arguments, 100 items, 400 lines, 100 math regions), the nest layer (two container kinds alternating to depth 5..40, 306 documents) '
                 'and tests/samples/*.tex + documentation examples (also as StringIO / lines / chunks); a document is distinct '
                 'by its source text' % ', '.join('%s <= %d nodes' % p for p in layers.PLAN[tier]),
         'layers': dict(total.hist),
